@@ -72,4 +72,18 @@ MMIO_PLAN = {
                     'a write of 0x40C0 to 0x1DE starts a DMA transfer, which is not followed here'],
     'not_covered': ['DMA transfers with guest-chosen 32-bit addresses and AHBM bursts (dma.cpp / ahbm.cpp DoDma, Tick, Read/Write): not yet under a safety obligation; use of freed memory inside the default cells\' closures (they capture `this` of a temporary Cell and read `index` through it for a diagnostic printf, which the extraction drops)'],
 }
-PLAN = {'property': 'C18', 'parts': [CORE_PLAN, MMIO_PLAN]}
+# ---- AHBM part: bus-master accesses under every register value the MMIO fields can hold (unit: the C13 unit, dma.cpp + ahbm.cpp)
+import importlib.util as _ilu
+_sp = _ilu.spec_from_file_location('plan_c13_for_c18', os.path.join(os.path.dirname(os.path.abspath(__file__)), 'c13.py')); _c13 = _ilu.module_from_spec(_sp); _sp.loader.exec_module(_c13)
+AHBM_PLAN = {
+    'property': 'C18', 'part': 'ahbm', 'standard_checks': False,
+    'units': copy.deepcopy(_c13.PLAN['units']),
+    'harness_files': ['harness/c13.c'], 'contract_files': ['contracts/dma_contracts.h'], 'spec_files': ['spec/dma_spec.h'],
+    'native': {'bridges': ['replay/bridge_dma.cpp']}, 'fidelity_samples': {'quick': 2000, 'thorough': 20000},
+    'obligations': [{'id': 'ahbm_access_safe', 'entry': 'h_ahbm_access_safe', 'enforce': [], 'replace': [], 'unwind': 10, 'timeout': 900, 'expect_classes': {'assertion': 1}, 'min_obligations': 5,
+                     'checks': CHECKS, 'standard_checks': False, 'object_bits': 12}],
+    'trusted_base': ['external memory behind std::function callbacks: an access log returning arbitrary values'],
+    'assumptions': ['channel index < 3 (constants at the MMIO bindings; Ahbm::GetChannelForDma returns < 3: C13)', 'TYPE / BURST / direction within the width of their MMIO fields (2, 2, 1 bits: the bindings mask them, C12)'],
+    'not_covered': ['DMA transfers with guest-chosen 32-bit DSP addresses (Dma::Channel::Tick: space 0 addresses are used unmasked) -- not under a safety obligation yet'],
+}
+PLAN = {'property': 'C18', 'parts': [CORE_PLAN, MMIO_PLAN, AHBM_PLAN]}
